@@ -63,6 +63,7 @@ def run(ctx):
     # the repository's own tests, traced: every event must be explainable by the specification as well
     traces.append(repo_tests(ctx, None if ctx.tier == "thorough" else
                              ["test_job.py", "test_tools.py", "test_mechanics.py", "test_constitution_newton.py", "test_planestrain.py", "test_readme.py"]))
+    ctx.drift_prefixes = ("Mismatch-",)     # structural deviation from Solver.tla without a property-level reason (see SolverTrace!Reasons)
     ctx.validate("SolverTrace", traces, count=False)
     ntr = 0
     for s in traces:
